@@ -180,15 +180,18 @@ def run(ctx):
         for i in range(5):
             d = (d + "/" if d else "") + r.choice(["日本", "жф", "é", "€x"]) * r.range(20, 40)
             ents.append({"path": d, "kind": "d", "mode": 0o755, "mtime": 1700000000})
-        for nm in ("x", "xy", "xyz", "日本", "q\"r"):
+        # (a line feed inside a value, followed by more than a kilobyte of the same row: stdout is line-buffered)
+        for nm in ("x", "xy", "xyz", "日本", "q\"r", "n\nl", "tab\tcr\rz"):
             ents.append({"path": d + "/" + nm, "kind": "f", "size": 1, "mode": 0o644, "mtime": 1700000000})
         longs = corr.Snap(scratch, ents, subdir="long")
         for k in ([1, 2, 3, 7, 8, 9, 16] if quick else list(range(1, 24))):
             for lead in (["name"], ["size", "name"], []):
-                sel = lead + ["path"] * k
+                # (`dir` repeats the long directory without the entry's own name: a line feed in the name then stands early
+                # in the row, with more than a kilobyte and no further line break after it)
+                sel = lead + [("dir" if (k + len(lead)) % 2 else "path")] * k
                 for path, base in (("streamed", "select %s from . where is_file = true" % ", ".join(sel)),
                                    ("ordered", "select %s from . where is_file = true order by name desc" % ", ".join(sel))):
-                    for fmt in (["csv", "json", "html"] if k in (1, 8, 9) or not quick else ["csv"]):
+                    for fmt in (["csv", "json", "html"] if k in (1, 2, 8, 9) or not quick else ["csv", "html"]):
                         q = base + " into " + fmt
                         ctx.case(("long", q))
                         ctx.distinct.add(("long", k, fmt, path, len(lead), "nt"))
